@@ -57,10 +57,11 @@ func ParseMessage(data []byte) (*Message, error) {
 		// parse message
 		//    127|error|<message>
 		//    127|warning|<message> // error with single record, operation continues
-		if len(parts) != 3 {
+		// The message is free text and may itself contain the separator.
+		if len(parts) < 3 {
 			return nil, ErrMalformedMessage
 		}
-		m.Key = string(parts[2])
+		m.Key = string(bytes.Join(parts[2:], apiSeperatorBytes))
 	case MsgDone, MsgSuccess:
 		// nothing more to do
 		//    127|success
